@@ -120,6 +120,8 @@ def run(ctx):
     ctx.rule('M2e', 'add_context_category places the new category at index(name) for insert_before, index(name)+1 for '
                     'insert_after, and at 0 / len(list) when the name is unknown (per assignment of the position, under the '
                     'facts that govern it)', 4)
+    ctx.rule('M15', 'extended_with() merges into a leading automatically named category only extensions that have no '
+                    'category name of their own (`category is None` is part of the merge condition)', 1)
     ctx.rule('M14', 'LatexContextDb reads no option through `d.pop(k[, None]) or <fallback>`: an option explicitly given as '
                     'None (no specification for unknown names) stays None in the derived database', 0)
     ctx.rule('M9', 'closure under derivation: a derived database is built only through operations that accept '
@@ -418,6 +420,34 @@ def run(ctx):
     if n_pl < 4:
         ctx.unknown('M2e', m, acf, 'only %d of the 4 placement cases (insert_before/insert_after x found/not found) recognised'
                     % n_pl, construct='add_context_category: placement cases')
+
+    # ---------------------------------------------------------------- M15
+    # extended_with(): only an extension WITHOUT a category name of its own may be merged into a leading automatic category
+    ew_ = meths.get('extended_with')
+    n_mg = 0
+    if ew_ is not None:
+        ldefs_ = {}
+        for a_ in iter_own(ew_):
+            if isinstance(a_, ast.Assign) and len(a_.targets) == 1 and isinstance(a_.targets[0], ast.Name):
+                ldefs_.setdefault(a_.targets[0].id, []).append(a_.value)
+        for if_ in [x_ for x_ in iter_own(ew_) if isinstance(x_, ast.If)]:
+            ttxt = unparse(if_.test)
+            names_ = {n_.id for n_ in ast.walk(if_.test) if isinstance(n_, ast.Name)}
+            via_local = any(len(ldefs_.get(n_, [])) == 1 and 'category_list[0]' in unparse(ldefs_[n_][0]) for n_ in names_)
+            if not (('_autogen_category_prefix' in ttxt or 'startswith' in ttxt) and ('category_list[0]' in ttxt or via_local)):
+                continue
+            n_mg += 1
+            atoms_ = {(unparse(a_), ap_) for a_, ap_ in _sx._atoms(if_.test, True)}
+            okm = ('category is None', True) in atoms_ or ('category is not None', False) in atoms_ or \
+                ('category', False) in atoms_ or ('not category', True) in atoms_
+            ctx.decide('M15', okm, m, if_, 'merge into the leading automatic category only when category is None',
+                       'extended_with() merges the new definitions into the leading automatically named category under [%s], '
+                       'which does not require `category is None`: an extension given its own name (category=\'pkg\') '
+                       'disappears into the automatic category -- categories() does not list it, it can be registered twice, '
+                       'and filtered_context(keep/exclude=[\'pkg\']) answers wrongly' % short(if_.test, 100),
+                       construct='extended_with: merge condition')
+    if not n_mg:
+        ctx.unknown('M15', m, ew_, 'merge branch of extended_with not found', construct='extended_with: merge condition')
 
     # ---------------------------------------------------------------- M14
     # an option given explicitly as None (no fallback specification) is not the same as an option that was not given
